@@ -29,6 +29,7 @@ RULE = (
     "tensorlib change since birth; distinct = different (object kind, sequence of (backend,precision) it lived "
     "through (last 5), optimizer, op kind) tuples"
 )
+STATE_MEASURE = "abstract state after each create/drop/switch = (backend, precision, optimizer) x sorted multiset of (object kind, birth backend, birth precision, real changes survived (<=3))"
 ASSUMPTIONS = [
     "a twin built now from the same arguments defines 'evaluates as a freshly created one' (real pyhf code, not a model)",
     "8 ulp of the working precision tolerated between object and twin (same code path: bit-identical expected)",
@@ -100,6 +101,7 @@ def _gen_create(rng, oid, cfg):
 
 
 def gen(rng: random.Random, k: int, tier: str) -> dict:
+    deep = tier == "thorough" and k % 3 == 2   # thorough: every third segment is a three times longer history
     nb = rng.choice([1, 2, 2, 3, 4, 4])
     backends = sorted(rng.sample(BACKENDS, nb), key=BACKENDS.index)
     if rng.random() < 0.5 and "numpy" not in backends:
@@ -112,19 +114,19 @@ def gen(rng: random.Random, k: int, tier: str) -> dict:
         "create_w": [rng.choice([2, 4, 6]), rng.choice([1, 2]), rng.choice([0, 1]), rng.choice([0, 1]),
                      rng.choice([0, 1, 2]), rng.choice([0, 1]), rng.choice([0, 1, 2])],
         "infer_w": rng.choice([0.0, 0.3, 0.6, 1.0]),
-        "len": rng.randint(8, 36),
+        "len": rng.randint(8, 36) * (3 if deep else 1),
     }
     ops = []
     live: dict[int, str] = {}
     nextid = 0
     cur = ("numpy", "64b", "scipy")
-    budget = 60.0  # rough cost units so that jax/TF heavy segments stay short
+    budget = 60.0 * (3 if deep else 1)  # rough cost units so that jax/TF heavy segments stay short
     for _ in range(cfg["len"]):
         if budget <= 0:
             break
         nmodels = sum(1 for v in live.values() if v == "model")
         w = {
-            "create": 3.0 if len(live) < 6 else 0.0,
+            "create": 3.0 if len(live) < (10 if deep else 6) else 0.0,
             "switch": 4.0,
             "eval": 5.0 if live else 0.0,
             "infer": 1.5 * cfg["infer_w"] if nmodels else 0.0,
